@@ -238,8 +238,11 @@ def unrecognised_rules(ck, rule):
         not any(isinstance(n, (ast.Break, ast.Return)) for n in ast.walk(rloop[0]))
     ck.ob(rule, mod.loc(rg), ok_all, 'the marking runs for every residue of the reference graph, unconditionally (no residue is skipped on a count or a shortcut)',
           key=rule + '|every-residue')
-    fd = [s for s in ast.walk(rg) if isinstance(s, ast.Assign) and u(s.targets[0]) in ('found', 'match')]
-    ok = {u(s.targets[0]): u(s.value) for s in fd} == {'found': "reference_graph.nodes[residx]['found']", 'match': "reference_graph.nodes[residx]['match']"}
+    fd_env = stmts_with_env(rg, lambda s: isinstance(s, ast.Assign) and u(s.targets[0]) in ('found', 'match'))
+    fd = [s for s, _c, _e in fd_env]
+    # read through the residue's node, spelled out or through the local that already names it
+    alias = {k: v for k, v in (('residue', single_def(rg, 'residue')),) if v is not None and u(v) == 'reference_graph.nodes[residx]'}
+    ok = {u(s.targets[0]): u(flow.subst(s.value, alias)) for s in fd} == {'found': "reference_graph.nodes[residx]['found']", 'match': "reference_graph.nodes[residx]['match']"}
     call_rr = [s for s in ast.walk(rg) if isinstance(s, ast.Expr) and call_name(s.value) == 'repair_residue']
     ok = ok and len(call_rr) == 1 and all(call_rr[0].lineno < s.lineno for s in fd)
     ck.ob(rule, mod.loc(rg), ok, 'the complement is taken after the residue was repaired (rebuilt atoms are in the match)', key=rule + '|after-repair')
